@@ -211,6 +211,29 @@ def fill(claim, na):
         "Trusted: IUPAC oracle table; Cython lowering for parameter types; idiom tables in sa/props/C03.py.",
         "DESIGN.md section 2, C03",
     )
-    for p in ["C04", "C05", "C08", "C09", "C10",
+    claim(
+        "C04",
+        "enum-totality of literal tables at their subscript sites (BondType members read from the "
+        "lowered bonds.pyx), column/annotation map extraction from writer and reader, column def-use "
+        "between paired writer/reader functions, option-dispatch and operator-precedence shape "
+        "rules, interval facts of integer down-casts (custom ast analysis)",
+        "Decides agreement of the writer's and reader's tables and columns: every BondType-keyed "
+        "table subscripted on the set_structure/get_structure call graph is total over the members "
+        "left by the dominating guards; conn_type_ids written are understood by the reader; "
+        "annotation -> atom_site column (set_structure) and column -> annotation "
+        "(_fill_annotations) compose to the identity for the 11 standard annotations, with the "
+        "mask conventions of ins_code and charge and the three coordinate columns in both model "
+        "branches; every struct_conn/chem_comp_bond column filled from structure data is read by "
+        "the paired parser (known finding: pdbx_value_order); partner columns written are matched "
+        "on; the altloc option dispatches over first/occupancy/all with a rejecting else in both "
+        "the PDBx and the PDB reader, the highest-occupancy filter starts below every admissible "
+        "sum; no comparison is an unparenthesised operand of a '&'/'|' chain (thorough: all 187 "
+        "Python files), the canonical-link filter has its five conjuncts; integer down-casting "
+        "checks the minimum and the maximum. Not decided: equality of the structure read back, "
+        "struct_conn matching on data, box equivalence.",
+        "Trusted: mmCIF item semantics frozen in ATOM_SITE; name-based call resolution inside convert.py.",
+        "DESIGN.md section 2, C04",
+    )
+    for p in ["C05", "C08", "C09", "C10",
               "C11", "C14", "C15", "C16", "C19"]:
         na(p, PENDING)
